@@ -285,6 +285,32 @@ class C02(vlib.Driver):
             return {"algo": algo, "family": family, "share": False, "netcfg": "none" if family == "dictimg" else "partial", "seed": seed,
                     "pop": pop, "ops": ops}
 
+        def mchain(algo, share, seed, pop=3):
+            """the output of Mutations.mutation is mutated again, and again (no training in between), through ONE Mutations
+            object with scripted-by-probability kinds; everybody acts and learns; tournament selection builds new agent
+            objects and the SAME Mutations object mutates that population too (mutate_elite=False the second time is a
+            separate object)"""
+            r = random.Random(f"C02-mchain-{algo}-{share}-{seed}")
+            ops = train_all(pop, r, act=False)
+            for j, p in enumerate(([0, 1, 0, 0, 0], [0, 0, 1, 0, 0], [0, 0, 0, 0, 1], [0, 1, 1, 1, 1])):
+                ops.append(["mutate", {"probs": p, "mobj": "M%d" % j, "selection": "default"}, seed + j, False])
+            ops += train_all(pop, r)
+            ops += selection(pop, r)
+            for j in (0, 2, 1):
+                ops.append(["mutate", {"probs": [0, 1, 0, 0, 0] if j == 0 else ([0, 0, 0, 0, 1] if j == 2 else [0, 0, 1, 0, 0]),
+                                       "mobj": "M%d" % j, "selection": "default"}, seed + 10 + j, False])
+            ops.append(["mutate", {"probs": [0, 1, 0, 0, 1], "mobj": "E", "selection": "default", "mutate_elite": False}, seed + 20, False])
+            ops += train_all(pop, r, act=False)
+            return {"algo": algo, "family": "vector", "share": share, "netcfg": "partial", "seed": seed, "pop": pop, "ops": ops}
+
+        for algo, share in (("TD3", True), ("PPO", False), ("DQN", False), ("MADDPG", False)):
+            if only and only not in ("mchain", algo):
+                continue
+            cases.append(mchain(algo, share, 5))
+        if only == "mchain":
+            cases = [c for c in cases if any(o[0] == "mutate" and str(o[1].get("mobj", "")).startswith("M") for o in c["ops"])]
+            self._precompute(cases)
+            return cases
         for algo, fam, sel, n in (("DQN", "vector", "default", 5), ("RainbowDQN", "vector", ["Tanh", "ELU", "GELU", "ReLU"], 6),
                                   ("CQN", "image", ["ELU", "GELU"], 4), ("NeuralTS", "vector", "default", 3),
                                   ("NeuralUCB", "dictimg", ["GELU", "Tanh", "ELU"], 4)):
@@ -306,7 +332,9 @@ class C02(vlib.Driver):
             for share in ([False, True] if algo in evo.SHARE_CAPABLE else [False]):
                 if only and only not in ("boundary", "bounds", algo):
                     continue
-                for side in ("max", "min"):
+                for si, side in enumerate(("max", "min")):
+                    if tier == "quick" and (ACTOR_CRITIC.index(algo) + int(share) + si) % 2:
+                        continue            # quick: one side per variant, alternating (the other side runs in thorough)
                     for sd in ((1,) if tier == "quick" else (1, 2, 3)):
                         cases.append(bounds(algo, share, side, sd))
         if only == "bounds":
@@ -318,8 +346,7 @@ class C02(vlib.Driver):
             for algo in evo.ALGOS:
                 cases.append(seeded(algo, "vector", algo in evo.SHARE_CAPABLE and rng.random() < 0.5,
                                     rng.choice(["partial", "full", "none"]), 3, rng.randrange(100), 3))
-            for algo, fam in (("DQN", "image"), ("PPO", "dict"), ("DDPG", "discrete"), ("MADDPG", "image"), ("NeuralUCB", "image"),
-                              ("RainbowDQN", "discrete")):
+            for algo, fam in (("PPO", "dict"), ("DDPG", "discrete")):      # the other families: method-forcing histories
                 cases.append(seeded(algo, fam, False, "partial", 2, rng.randrange(100), 2))
             # custom encoder selected by alias (EvolvableResNet): its channel / block mutations, then rebuilds
             cases.append(boundary("DQN", False, 3, family="image", netcfg="resnet"))
@@ -450,13 +477,14 @@ class C02(vlib.Driver):
                                for n in evals} for a in pop]
                 sel_orig = origs[mkey] if mkey is not None else list(m.activation_selection)
                 ids_before = [id(a) for a in pop]
+                pop_arg = list(pop)            # the list object handed to Mutations.mutation (the harness keeps its own)
                 # sub-configurations must be read before the call (the methods are only known afterwards): keep the
                 # init_dicts as canonical JSON
                 before_init = [{n: [json.dumps(_clean(mm.init_dict), sort_keys=True) for mm in before_mods[i][n]] for n in evals}
                                for i in range(len(pop))]
                 try:
                     try:
-                        out = m.mutation(pop, pre_training_mut=bool(pre))
+                        out = m.mutation(pop_arg, pre_training_mut=bool(pre))
                     finally:
                         if forced is not None:
                             _mm.get_architecture_mut_method = orig_sampler
@@ -471,6 +499,8 @@ class C02(vlib.Driver):
                 rec["len_before"], rec["len_after"] = len(pop), len(out)
                 rec["idx_before"], rec["idx_after"] = idx_before, [int(evo.unwrap(a).index) for a in out]
                 rec["same_objects"] = [id(a) == b for a, b in zip(out, ids_before)]
+                rec["arg_ids_after"] = [id(a) for a in pop_arg]
+                rec["arg_ids_before"] = ids_before
                 rec["labels"] = [evo.unwrap(a).mut for a in out]
                 import inspect as _insp
                 from agilerl.hpo.mutation import Mutations as _M
@@ -719,6 +749,10 @@ class C02(vlib.Driver):
                     out.append(Violation("shape", sig("shape", "calls"),
                                          f"{what}: {len(rec['kinds'])} mutation functions were applied to {rec['len_after']} members"))
                     continue
+                if rec.get("arg_ids_after") is not None and rec["arg_ids_after"] != rec["arg_ids_before"]:
+                    out.append(Violation("argument-modified", sig("argmodified", "population"),
+                                         f"{what}: Mutations.mutation modified the population list it was handed: {len(rec['arg_ids_before'])} members "
+                                         f"before, {len(rec['arg_ids_after'])} after / other order"))
                 ac = rec.get("act")
                 if ac:
                     # the selection of the Mutations object, the caller's list and the default-argument list are never consumed
